@@ -6,7 +6,8 @@
   with a whole-program supported-model check). Helper lemmas: ILV.Lemmas.Datalog / Engine.
 
   The full statement is false of the faithful model (the code has defects): `C01_refuted`
-  (mutual recursion) and three further refutations, one per always-on clause-level defect.
+  (mutual recursion) and two further refutations, one per remaining always-on clause-level defect
+  (the wildcard-naming defect is repaired: fixes/C01-same_relation_wildcard_position.diff).
   `C01_partial` is the part that is proved: non-recursive, aggregate-free programs whose
   execution order (the code's own topological sort) respects the dependencies.
 -/
@@ -78,25 +79,6 @@ theorem C01_refuted_pushdown :
 
 example : Drv.C01.pushdownShift (joinFilter.getD 0 default) = true := by decide
 
-/-- `q(X,Y) <- e(X,_), e(Y,_)`: both wildcards are named `_ph_e_1`, so they are joined. -/
-def wildPair : Program := [
-  { hrel := "q", hargs := [.var "X", .var "Y"],
-    body := [.pos ⟨"e", [.var "X", .wild]⟩, .pos ⟨"e", [.var "Y", .wild]⟩] } ]
-def wildDb : DB := [("e", [[.i64 1, .i64 2], [.i64 3, .i64 1]])]
-
-theorem C01_refuted_wildcard :
-    ∃ A acc M, Engine.run allOff noHash anyOrd 8 wildPair wildDb = .ok A acc ∧
-      pmEval 8 wildPair wildDb = some M ∧ [Value.i64 1, Value.i64 3] ∉ A ∧
-      [Value.i64 1, Value.i64 3] ∈ M.get (queryRel wildPair) := by
-  have hpm : (pmEval 8 wildPair wildDb).isSome = true := by decide
-  obtain ⟨M, hM⟩ := Option.isSome_iff_exists.1 hpm
-  refine ⟨[[.i64 1, .i64 1], [.i64 3, .i64 3]], [("q", [[.i64 1, .i64 1], [.i64 3, .i64 3]])], M, by decide, hM, by decide, ?_⟩
-  have : (pmEval 8 wildPair wildDb).map (fun m => (m.get (queryRel wildPair)).contains [Value.i64 1, Value.i64 3]) = some true := by decide
-  rw [hM] at this
-  simpa using this
-
-example : wildPair.any Drv.C01.sameRelWildcard = true := by decide
-
 /-- `q(X) <- e(X,Y), Z = Y + 1, Z = X`: the second equality is neither computed nor filtered. -/
 def dropEq : Program := [
   { hrel := "q", hargs := [.var "X"],
@@ -121,7 +103,7 @@ example : dropEq.any Drv.C01.droppedEquality = true := by decide
     partitioner, any emission order, any fuel) answers `A`, and the Spec's least model is `M`, then
     `A` is exactly the query relation of `M` — provided the clauses are evaluated faithfully
     (`ClauseFaithful`, see `clauseFaithful_of_simple` for a decidable sufficient condition; it
-    fails exactly on the three clause-level defects refuted above). -/
+    fails exactly on the clause-level defects refuted above). -/
 theorem C01_partial (p : Program) (edb : DB) (hash : Tuple → Nat) (ord : String → List Tuple → List Tuple)
     (fuel fuel' : Nat) (A : List Tuple) (acc M : DB)
     (hfrag : inFragment p edb = true) (hcf : ClauseFaithful p)
